@@ -225,6 +225,9 @@ class World:
         self._callees = {}
         self._callers = None
         self._inliner = None
+        from .inline import Inliner, must_inline_policy
+        self._unit = Inliner(self.prog, must_inline_policy)
+        self.effects.unit_inliner = self._unit
 
     def qi(self, fn, policy=None):
         """query object over the INLINED view of fn (private same-crate helpers spliced in)"""
@@ -239,9 +242,20 @@ class World:
         return r
 
     def q(self, fn):
+        """query object over the UNIT view of fn: the function as written, except that calls of higher-order private helpers
+        (helpers taking a closure or generic over a workspace trait, which cannot be analysed on their own) and calls of
+        closure values defined in the same body are spliced in (analysis/inline.py)"""
         r = self._q.get(fn.path)
         if r is None:
-            r = FnQ(self, fn)
+            g = fn
+            if getattr(fn, "inlined_from", None) is None and fn.kind in ("Fn", "AssocFn", "Closure"):
+                try:
+                    u = self._unit.inlined(fn)
+                    if u.inlined_from:
+                        g = u
+                except Exception:      # a construct the splicer does not handle: analyse the function as written
+                    g = fn
+            r = FnQ(self, g)
             self._q[fn.path] = r
         return r
 
